@@ -16,3 +16,6 @@ pub mod filters;
 pub mod partition;
 pub mod options;
 pub mod mem;
+// group C2 (C14; symbol / decoder specs)
+pub mod symforge;
+pub mod sym;
